@@ -209,6 +209,18 @@ def main() -> int:  # noqa: C901, PLR0912, PLR0915
                     harness_errors.append(f"{ob.name}: counterexample not captured")
                     continue
                 rr = replay(gen, ob.name + ("__replay" if ob.kind == "e2" else ""), ce, root, env)
+                if rr.get("outcome") == "true" and "realfloat" in ob.flags:
+                    # floats are modelled as reals: the solver's model typically sits exactly on a decision boundary
+                    # (a tie), where IEEE rounding decides differently.  A genuine violation holds in an open
+                    # neighbourhood on one side of the boundary: look for it with small deterministic perturbations.
+                    rnd = random.Random(12345)
+                    for _try in range(24):
+                        ce2 = {k: (v * (1 + rnd.choice((-1, 1)) * 10 ** rnd.uniform(-6, -2)) if isinstance(v, float) else v) for k, v in ce.items()}
+                        r2 = replay(gen, ob.name, ce2, root, env)
+                        if r2.get("outcome") in ("false", "raised"):
+                            ce, rr = ce2, r2
+                            row["perturbed_from"] = m.get("ce")
+                            break
                 row["counterexample"] = ce
                 row["replay"] = {k: rr.get(k) for k in ("outcome", "signature", "detail")}
                 if rr.get("outcome") in ("false", "raised"):
